@@ -187,6 +187,34 @@ func init() {
 				if terr == nil {
 					r.Case(L(I(1), tv), Bs(txt), "join", len(want) >= 2)
 				}
+				// sibling derivations from one configured base never influence each other (nor the base)
+				if si%3 == 0 && !bad {
+					base := c10Apply(tabula.Open(path), bs)
+					x, y := rng.Range(1, np), rng.Range(1, np)
+					a := base.Pages(x)
+					b := base.Pages(y)
+					_ = b.ExcludeHeaders()
+					da, _, ea := a.Document()
+					db, _, eb := base.Document()
+					wantA := map[int]bool{x: true}
+					for p := range set {
+						wantA[p] = true
+					}
+					okSib := ea == nil && eb == nil && len(da.Pages) == len(wantA) && len(db.Pages) == len(want)
+					if okSib {
+						for _, pg := range da.Pages {
+							if !wantA[pg.Number] {
+								okSib = false
+							}
+						}
+						for i := range want {
+							if db.Pages[i].Number != want[i] {
+								okSib = false
+							}
+						}
+					}
+					r.Check(okSib, "sibling-interference", fmt.Sprintf("base.Pages(%d) / base changed after deriving base.Pages(%d) from the same base", x, y), cv)
+				}
 				// chunk page metadata refers to true source pages
 				if si%5 == 0 {
 					ch, _, cerr := c10Apply(tabula.Open(path), bs).Chunks()
@@ -230,6 +258,42 @@ func init() {
 		pdfPath := tmpFile(r, ".pdf", mkPDFLines([][]pdfLine{{{72, 700, 12, "one"}}, {{72, 700, 12, "two"}}, {{72, 700, 12, "three"}}}, 612, 792))
 		docxPath := tmpFile(r, ".docx", writeZip(mkDOCXSimple([]string{"para one", "para two"})))
 		badPath := tmpFile(r, ".pdf", writeZip(mkDOCXSimple([]string{"not a pdf"}))) // DOCX bytes named .pdf: every open fails
+		// every terminal operation, successful or failed, releases the handle it opened
+		type term struct {
+			name string
+			f    func(e *tabula.Extractor) error
+		}
+		terms := []term{
+			{"Text", func(e *tabula.Extractor) error { _, _, err := e.Text(); return err }},
+			{"Fragments", func(e *tabula.Extractor) error { _, _, err := e.Fragments(); return err }},
+			{"Document", func(e *tabula.Extractor) error { _, _, err := e.Document(); return err }},
+			{"Chunks", func(e *tabula.Extractor) error { _, _, err := e.Chunks(); return err }},
+			{"ToMarkdown", func(e *tabula.Extractor) error { _, _, err := e.ToMarkdown(); return err }},
+			{"Lines", func(e *tabula.Extractor) error { _, err := e.Lines(); return err }},
+			{"Paragraphs", func(e *tabula.Extractor) error { _, err := e.Paragraphs(); return err }},
+			{"Analyze", func(e *tabula.Extractor) error { _, err := e.Analyze(); return err }},
+		}
+		for _, t := range terms {
+			for _, sc := range []struct {
+				name string
+				mk   func() *tabula.Extractor
+				fail bool
+			}{
+				{"ok", func() *tabula.Extractor { return tabula.Open(pdfPath).Pages(1, 2) }, false},
+				{"out-of-range", func() *tabula.Extractor { return tabula.Open(pdfPath).Pages(2, 99) }, true},
+				{"mismatch", func() *tabula.Extractor { return tabula.Open(badPath) }, true},
+				{"missing", func() *tabula.Extractor { return tabula.Open(pdfPath + ".nope.pdf") }, true},
+			} {
+				before := openFDs()
+				e := sc.mk()
+				err := t.f(e)
+				after := openFDs()
+				r.Check(after == before, "terminal-keeps-handle", fmt.Sprintf("%s (%s): %d descriptor(s) still open after the terminal operation", t.name, sc.name, after-before), Bs(t.name+"/"+sc.name))
+				r.Check((err != nil) == sc.fail, "terminal-result", fmt.Sprintf("%s (%s): unexpected result %v", t.name, sc.name, err), Bs(t.name+"/"+sc.name))
+				e.Close()
+				r.Check(e.Close() == nil, "close-twice", "closing again returned an error", Bs(t.name))
+			}
+		}
 		nSeq := 300
 		if thorough {
 			nSeq = 8000
